@@ -161,7 +161,7 @@ func c06HasUnrepresentable(v *c06V) bool {
 
 // VerifC06Encode: the JSON value of a document equals its YAML data-model value; unrepresentable floats are an error.
 func VerifC06Encode() {
-	shape := verifChoice("shape", 5)
+	shape := verifChoice("shape", 6)
 	var root *yaml.Node
 	var ref *c06V
 	switch shape {
@@ -182,15 +182,22 @@ func VerifC06Encode() {
 		root = vMap(vStr("a"), vSeq(vMap(vStr("b"), n1), vSeq()), vStr("e"), vMap())
 		ref = &c06V{kind: 6, keys: []string{"a", "e"}, items: []*c06V{
 			{kind: 5, items: []*c06V{{kind: 6, keys: []string{"b"}, items: []*c06V{v1}}, {kind: 5}}}, {kind: 6}}}
-	default: // an alias stands for its anchored node
+	case 4: // an alias stands for its anchored node
 		n1, v1 := c06Scalar("v1")
 		n1.Anchor = "x"
 		root = vMap(vStr("a"), n1, vStr("b"), &yaml.Node{Kind: yaml.AliasNode, Value: "x", Alias: n1})
 		ref = &c06V{kind: 6, keys: []string{"a", "b"}, items: []*c06V{v1, v1}}
+	default: // an anchor name defined twice: an alias stands for the most recent definition before it
+		n1, v1 := c06Scalar("v1")
+		n2, v2 := c06Scalar("v2")
+		n1.Anchor, n2.Anchor = "x", "x"
+		root = vMap(vStr("a"), n1, vStr("b"), &yaml.Node{Kind: yaml.AliasNode, Value: "x", Alias: n1},
+			vStr("c"), n2, vStr("d"), &yaml.Node{Kind: yaml.AliasNode, Value: "x", Alias: n2})
+		ref = &c06V{kind: 6, keys: []string{"a", "b", "c", "d"}, items: []*c06V{v1, v1, v2, v2}}
 	}
 	doc := vDoc(root)
 	b, err := doc.MarshalJSON()
-	label := []string{"scalar", "seq", "map", "nested", "alias"}[shape]
+	label := []string{"scalar", "seq", "map", "nested", "alias", "anchor-redefined"}[shape]
 	if c06HasUnrepresentable(ref) {
 		verifCover("C06/encode/unrepresentable")
 		verifAssert(err != nil, "C06/unrepresentable-float-encoded-as-something "+label)
